@@ -1,6 +1,7 @@
 import IsoMdl.Props.C03
 import IsoMdl.Lemmas.Report
 import IsoMdl.Model.ResponseFacts
+import IsoMdl.Lemmas.Cbor
 import IsoMdl.Model.ReportWire
 /-
 C04 — Elements reported as issuer-authenticated are bound to the signed MSO.
@@ -107,6 +108,50 @@ theorem C04_wire_digest_check_sound (doc mso is : Cbor) (nss : List (Cbor × Cbo
       · simp [ht] at h2
     | _ => simp at h2
   | _ => simp at h2
+
+/-- the reader of the wire model gives back what an encoder put there: an item encoded from a value `v`
+that a `ciborium::Value` can hold (UTF-8 text, the four known simple values) is read as `v`, whatever
+follows it - so the hypotheses `decodeValue b = some iv` of the theorems here are met by every honestly
+encoded item, and the item the digest is compared for is the item that was encoded. -/
+theorem C04_wire_reads_back (v : Cbor) (rest : Bytes) (hw : Cbor.wf v) (ht : textOk v = true) :
+    decodeValue (Cbor.enc v ++ rest) = some v := by
+  unfold decodeValue
+  rw [Cbor.decode_enc_append v rest hw]
+  simp [ht]
+
+/-- SUBSTITUTION NEEDS A HASH COLLISION: two items accepted against the SAME MSO in the same namespace under
+the same digestID - the item the issuer signed and anything an attacker sends in its place, in
+whichever document - have the same digest under the MSO's algorithm over their bytes as sent.  So a
+different item passing the check is a second preimage of the signed digest. -/
+theorem C04_substitution_needs_collision (doc doc' mso is is' : Cbor) (nss nss' : List (Cbor × Cbor)) (ns : Cbor)
+    (items items' : List Cbor) (b b' : Bytes) (iv iv' id : Cbor)
+    (h : digestsMatch doc mso = true) (h' : digestsMatch doc' mso = true)
+    (his : fget doc "issuerSigned" = some is) (hns : fget is "nameSpaces" = some (.map nss))
+    (his' : fget doc' "issuerSigned" = some is') (hns' : fget is' "nameSpaces" = some (.map nss'))
+    (hmem : (ns, .array items) ∈ nss) (hmem' : (ns, .array items') ∈ nss')
+    (hit : Cbor.tag 24 (.bytes b) ∈ items) (hit' : Cbor.tag 24 (.bytes b') ∈ items')
+    (hd : decodeValue b = some iv) (hd' : decodeValue b' = some iv')
+    (hid : fget iv "digestID" = some id) (hid' : fget iv' "digestID" = some id) :
+    hashWith ((fget mso "digestAlgorithm").getD (.simple 22)) (Cbor.enc (.tag 24 (.bytes b))) =
+    hashWith ((fget mso "digestAlgorithm").getD (.simple 22)) (Cbor.enc (.tag 24 (.bytes b'))) := by
+  obtain ⟨_, b1, iv1, id1, vdm1, want1, _, e1, d1, i1, _, v1, m1, w1⟩ :=
+    C04_wire_digest_check_sound doc mso is nss ns items _ h his hns hmem hit
+  obtain ⟨_, b2, iv2, id2, vdm2, want2, _, e2, d2, i2, _, v2, m2, w2⟩ :=
+    C04_wire_digest_check_sound doc' mso is' nss' ns items' _ h' his' hns' hmem' hit'
+  simp only [Cbor.tag.injEq, Cbor.bytes.injEq, true_and] at e1 e2
+  subst e1 e2
+  rw [hd] at d1; rw [hd'] at d2
+  simp only [Option.some.injEq] at d1 d2
+  subst d1 d2
+  rw [hid] at i1; rw [hid'] at i2
+  simp only [Option.some.injEq] at i1 i2
+  subst i1 i2
+  rw [v1] at v2
+  simp only [Option.some.injEq] at v2
+  subst v2
+  rw [m1] at m2
+  simp only [Option.some.injEq, Cbor.bytes.injEq] at m2
+  rw [← w1, ← w2, m2]
 
 end WireFacts
 
